@@ -216,7 +216,12 @@ impl<F: Float + SampleUniform + std::fmt::Debug, T: Hash, H: Hasher + Default>
             self.p.swap(j, k);
             //
             // update hsketch and counters
-            let rpj = r + (F::from(j).unwrap());
+            let mut rpj = r + (F::from(j).unwrap());
+            // in single precision r + j can round up to j + 1 : keep the integer part of the value equal to j
+            let jp1 = F::from(j + 1).unwrap();
+            if rpj >= jp1 {
+                rpj = jp1 - jp1 * F::epsilon();
+            }
             if rpj < self.hsketch[self.p[j]] {
                 // update of signature of rank j
                 let j_2 = cmp::min(self.hsketch[self.p[j]].to_usize().unwrap(), m - 1);
